@@ -2428,6 +2428,9 @@ class Parameters:
             value = resolve_value(value, recursive=pobj.nested_refs)
         except Skip:
             value = Undefined
+        if value is Skip:
+            # (returned instead of raised: no value either, as for _sync_refs)
+            value = Undefined
         if is_async and schedule:
             async_executor(partial(self_._async_ref, pobj.name, value, ref))
             value = None
